@@ -97,6 +97,11 @@ pub trait Job {
     fn yield_every(&self) -> u32 {
         1
     }
+    /// weak-memory mode (per-thread store buffers), with the per-mille chance that a scheduling
+    /// point of a thread drains one of its buffered stores
+    fn weak_memory(&self) -> Option<u32> {
+        None
+    }
 }
 
 #[derive(Default, Debug, Clone)]
@@ -167,6 +172,10 @@ fn begin_execution(job: &dyn Job, cfg: &SchedCfg) {
         s.p_timer_ppm = cfg.p_timer_ppm;
         s.step_cap = cfg.step_cap;
         s.yield_every = job.yield_every();
+        if let Some(pm) = job.weak_memory() {
+            s.weak = true;
+            s.flush_ppm = pm * 1000;
+        }
         s.shim_rng = SplitMix::derive(cfg.shim_seed, 0x5111);
         s.check_property = *CHECK_PROPERTY.lock().unwrap();
     });
